@@ -2037,7 +2037,11 @@ class ImportManager:
 
   @property
   def sorted_imports(self):
-    return sorted(self.imports, key=lambda s: s.module)
+    # The statement enabling dynamic registration has to come first, whatever
+    # the names of the other modules are (e.g. `Cap` sorts before `__gin__`).
+    return sorted(
+        self.imports,
+        key=lambda s: (s.module != '__gin__.dynamic_registration', s.module))
 
   def add_import(self, statement: config_parser.ImportStatement):
     """Adds a single import to this `ImportManager` instance.
